@@ -12,6 +12,9 @@ import asyncio
 import collections.abc
 import gc
 import heapq
+import os
+import signal
+import threading
 from asyncio import events
 from contextlib import contextmanager
 from datetime import datetime, timedelta, timezone
@@ -154,6 +157,30 @@ class VLoop(asyncio.BaseEventLoop):
         return fut.result()
 
 
+class WatchdogTimeout(KeyboardInterrupt):
+    """One execution ran for longer than the wall-clock limit: code that never yields to the loop cannot be
+    pre-empted by the virtual scheduler, so a real timer interrupts it.  Derived from KeyboardInterrupt because
+    that is what asyncio's Task and Handle let through."""
+
+
+WATCHDOG_S = float(os.environ.get("VERIF_WATCHDOG_S", "120"))
+
+
+def _on_alarm(signum, frame):
+    raise WatchdogTimeout(f"an execution did not finish within {WATCHDOG_S:.0f} s of wall-clock time")
+
+
+def arm_watchdog() -> None:
+    if threading.current_thread() is threading.main_thread():
+        signal.signal(signal.SIGALRM, _on_alarm)
+        signal.setitimer(signal.ITIMER_REAL, WATCHDOG_S)
+
+
+def disarm_watchdog() -> None:
+    if threading.current_thread() is threading.main_thread():
+        signal.setitimer(signal.ITIMER_REAL, 0)
+
+
 @contextmanager
 def virtual_loop(wall: bool = False, wall0: datetime = T0_WALL):
     """Install a fresh VLoop as the running loop for the duration of the block.
@@ -168,12 +195,14 @@ def virtual_loop(wall: bool = False, wall0: datetime = T0_WALL):
     loop = VLoop(traveller, wall0)
     events._set_running_loop(loop)
     asyncio.set_event_loop(loop)
+    arm_watchdog()
     try:
         yield loop
     finally:
         try:
             teardown(loop)
         finally:
+            disarm_watchdog()
             events._set_running_loop(None)
             asyncio.set_event_loop(None)
             loop.close()
